@@ -97,6 +97,7 @@ __CPROVER_requires(TerminateFlag != InterruptedFlag)
 __CPROVER_requires(g_evt.type == 0 && g_evt.payload == 0)       /* the completion event is a default-constructed object */
 __CPROVER_assigns(self->m_event_processing, g_ncompl, g_handled, g_exc, g_threw, g_exc_caught)
 __CPROVER_ensures((g_has_blocking_states && (g_flag_terminate || g_flag_interrupted)) ==> (g_ncompl == 0 && __CPROVER_return_value == HANDLED_TRUE))   /*@ob C11.blocked-machine-takes-no-completion-transition */
+__CPROVER_ensures(!(g_has_blocking_states && (g_flag_terminate || g_flag_interrupted)) ==> g_ncompl == 1)                                              /*@ob C10.completion-transition-is-executed-exactly-once-when-the-machine-is-not-blocked */
 __CPROVER_ensures((g_ncompl == 1 && !g_no_exception_thrown && g_threw) ==> (g_exc_caught == 1 && __CPROVER_return_value == HANDLED_FALSE))             /*@ob C12.outcome-does-not-depend-on-uninitialised-data */
 __CPROVER_ensures((g_ncompl == 1 && !g_threw && !g_exc) ==> (int)__CPROVER_return_value == g_handled)
 __CPROVER_ensures((g_ncompl == 1 && !g_exc) ==> !self->m_event_processing)                                                                             /*@ob C04,C12.machine-not-left-busy */
